@@ -150,6 +150,11 @@ func (p *Polynomial) ChangeOfBasis() (scalar, constant *big.Float) {
 
 // Depth returns the number of sequential multiplications needed to evaluate the polynomial.
 func (p Polynomial) Depth() int {
+	// A constant or linear polynomial is evaluated without any multiplication between ciphertexts
+	// (log2 of a degree 0 is -Inf, whose conversion to an integer is undefined).
+	if p.Degree() <= 1 {
+		return 0
+	}
 	return int(math.Ceil(math.Log2(float64(p.Degree()))))
 }
 
